@@ -6,7 +6,7 @@ from fractions import Fraction
 from hypothesis import strategies as st
 
 from ..env import Env, lit, NoLiteral
-from ..values import same_value
+from ..values import same_value, same_outcome
 from ..law import Law, Violation, Skip
 from ..values import dec, enc, err, CODES8
 
@@ -392,7 +392,7 @@ def crit_text(crit):
 
 
 cell_num = st.one_of(st.integers(-20, 20), st.integers(-80, 80).map(lambda k: k / 4.0), st.integers(-1000, 1000), st.integers(-20, 20), st.sampled_from([1e-05, 2.5e-07, -1e-05, 1e+16, 1.5e+20, 3e-05, 1e-06, -2e+17]))
-WORD = st.text(st.sampled_from('abcx.-[ abcx\n'), min_size=1, max_size=4)        # (a line feed is a character like any other for * and ?)
+WORD = st.text(st.sampled_from('abcx.-[ abcx\n]!1'), min_size=1, max_size=4)        # (a line feed is a character like any other for * and ?)
 
 
 @st.composite
@@ -561,7 +561,45 @@ def check_errors(case):
             raise Violation('%s over %r -> %r, expected the error %s' % (name, case['args'], r['error'] or r['result'], first), r['error'] or enc(r['result']), first)
 
 
+# ---------------------------------------------------------------- grouping does not matter: deep nesting, the same list twice
+
+DEEP_FNS = ['SUM', 'COUNT', 'MAX', 'MIN', 'AVERAGE', 'MEDIAN', 'PRODUCT', 'COUNTA', 'VAR.P', 'AVEDEV']
+
+
+def enum_deep(tier, shard, nshards):
+    # enumerated, not Hypothesis-driven: Hypothesis raises the interpreter's recursion limit inside its test bodies, which would hide a walk that recurses per level
+    depths = [3, 40, 400, 990, 1500, 5000] if tier == 'quick' else [3, 40, 400, 900, 990, 998, 1010, 1500, 5000, 20000, 100000]
+    i = 0
+    for d in depths:
+        for f in DEEP_FNS:
+            i += 1
+            if i % nshards == shard:
+                yield [f, d, (i * 7) % 5]
+
+
+def check_deep(case):
+    """The aggregates see the flattened items: how deep the host nested them, and whether one list object is mentioned twice, changes nothing."""
+    f, depth, shape = case
+    items = [3, 1.5, -2, 8, 0.25, 7, 2][:3 + shape]
+    env0 = Env(vars={'v_flat': list(items)})
+    want = env0.parse('%s(v_flat)' % f)
+    nested = list(items[1:])
+    for k in range(depth):
+        nested = [nested] if k % 3 else [nested[0], nested[1:]] if len(nested) > 1 and not isinstance(nested[0], list) else [nested]
+    env = Env(vars={'v_deep': [items[0], nested], 'v_flat': list(items)})
+    got = env.parse('%s(v_deep)' % f)
+    if want['error'] is not None or not same_outcome(got, want, tol=1e-12):
+        raise Violation('%s over %r gives %r; over the same items nested %d levels deep it gives %r' % (f, items, want, depth, got), got['error'] or enc(got['result']), want['error'] or enc(want['result']))
+    if f in ('SUM', 'COUNT', 'COUNTA'):
+        twice = env.parse('%s(v_flat,v_flat)' % f)
+        w2 = want['result'] * 2
+        if twice['error'] is not None or twice['result'] != w2:
+            raise Violation('%s(a, a) with a = %r gives %r, expected %r (an argument mentioned twice is two arguments)' % (f, items, twice, w2), twice['error'] or enc(twice['result']), w2)
+
+
 LAWS = [
+    Law('deep_and_repeated', check_deep, enumerate=enum_deep, shards=(8, 16),
+        rule='10 aggregates over 3-7 numbers handed over flat and nested 3..5000 levels deep (to 100000 in thorough; around the interpreter\'s default recursion limit in particular): the same outcome; SUM/COUNT/COUNTA of one list mentioned twice count it twice'),
     Law('statistics', check_stats, strategy=stats_case(), classes=stats_classes, nontrivial=stats_nontrivial, key=stats_key,
         quick=2400, thorough=40000, shards=(16, 16),
         required=('len>=3', 'negative', 'fraction', 'duplicate', 'nested', 'groups>=2', 'range', 'extreme-magnitude'),
